@@ -19,12 +19,12 @@ func init() {
 // ---------------------------------------------------------------------------
 
 type walkerModel struct {
-	p      *Program
-	fns    []*ssa.Function // methods of Walker (and closures)
-	W      *types.Named
-	Ev     *types.Named
-	lost   []string
-	byName map[string]*ssa.Function
+	p          *Program
+	fns        []*ssa.Function // methods of Walker (and closures)
+	W          *types.Named
+	Ev         *types.Named
+	lost       []string
+	byName     map[string]*ssa.Function
 	hosts      map[string]*ssa.Function
 	hostIssues []string
 }
@@ -919,9 +919,9 @@ func forNameCall(call *ssa.Call, lst [2]string, key [2]string) bool {
 func walkCoverage(c *Ctx, r *RuleResult, m *walkerModel) {
 	p := c.P
 	type child struct {
-		fn       string   // walker function
+		fn       string    // walker function
 		node     [2]string // struct, field of the child list/value
-		callee   string   // walk function that must receive it
+		callee   string    // walk function that must receive it
 		argIdx   int
 		locIdx   int
 		locs     []string
